@@ -19,14 +19,30 @@ import (
 
 type verifCS struct {
 	constraint.SparseR1CS[constraint.U32]
-	sys   constraint.System
-	added []constraint.SparseR1C
+	sys        constraint.System
+	added      []constraint.SparseR1C
+	nbInternal int
+	coeffs     []constraint.U32
 }
 
 func (c *verifCS) GetNbPublicVariables() int { return 2 }
 func (c *verifCS) GetNbSecretVariables() int { return 4 }
 func (c *verifCS) GetSparseR1CIterator() constraint.SparseR1CIterator {
 	return c.sys.GetSparseR1CIterator()
+}
+func (c *verifCS) AddInternalVariable() int {
+	c.nbInternal++
+	return 6 + c.nbInternal - 1
+}
+func (c *verifCS) FromInterface(v interface{}) constraint.U32 { return constraint.U32{uint32(v.(int))} }
+func (c *verifCS) AddCoeff(e constraint.U32) uint32 {
+	for i := range c.coeffs {
+		if c.coeffs[i] == e {
+			return uint32(i)
+		}
+	}
+	c.coeffs = append(c.coeffs, e)
+	return uint32(len(c.coeffs) - 1)
 }
 func (c *verifCS) AddSparseR1C(g constraint.SparseR1C, bID constraint.BlueprintID) int {
 	bp := c.sys.Blueprints[bID].(constraint.BlueprintSparseR1C)
@@ -95,4 +111,60 @@ func verifHarness_getWiresConstraintExact() {
 	verifAssert(len(res) == n+1, "one position per queried wire")
 	verifCheckAdded(cs, n)
 	verifReach("getWiresConstraintExact")
+}
+
+
+// Determinism stated directly: the same query on two fresh builders - every map range in either
+// run takes every order - appends the same constraints and returns the same positions. The query
+// mixes 0..2 missing witness wires with constants (two distinct ones, one of them twice), for which
+// GetWiresConstraintExact creates wires and gates of its own.
+func verifHarness_getWiresConstraintExactTwice() {
+	n := verifChoose(3)
+	nbGates := 1 + verifChoose(2)
+	q := verifQuery(n)
+	q = append(q, 7, 9, 7)
+	b1, cs1 := verifMkBuilder(nbGates)
+	b2, cs2 := verifMkBuilder(nbGates)
+	r1, err1 := b1.GetWiresConstraintExact(q, true)
+	r2, err2 := b2.GetWiresConstraintExact(q, true)
+	verifAssert(err1 == nil && err2 == nil, "no error")
+	verifAssert(len(r1) == len(r2) && len(cs1.added) == len(cs2.added), "both compilations add the same number of constraints")
+	if len(r1) != len(r2) || len(cs1.added) != len(cs2.added) {
+		return
+	}
+	for i := range cs1.added {
+		verifAssert(cs1.added[i] == cs2.added[i], "both compilations append the same constraints in the same order")
+	}
+	for i := range r1 {
+		verifAssert(r1[i] == r2[i], "both compilations return the same positions")
+	}
+	verifAssert(cs1.nbInternal == cs2.nbInternal && len(cs1.coeffs) == len(cs2.coeffs), "both compilations create the same wires and coefficients")
+	for i := range cs1.coeffs {
+		if i < len(cs2.coeffs) {
+			verifAssert(cs1.coeffs[i] == cs2.coeffs[i], "coefficient ids are assigned in the same order")
+		}
+	}
+	verifReach("getWiresConstraintExactTwice")
+}
+
+func verifHarness_getWireConstraintsTwice() {
+	n := verifChoose(3)
+	nbGates := 1 + verifChoose(2)
+	q := verifQuery(n)
+	b1, cs1 := verifMkBuilder(nbGates)
+	b2, cs2 := verifMkBuilder(nbGates)
+	r1, err1 := b1.GetWireConstraints(q, true)
+	r2, err2 := b2.GetWireConstraints(q, true)
+	verifAssert(err1 == nil && err2 == nil, "no error")
+	verifAssert(len(r1) == len(r2) && len(cs1.added) == len(cs2.added), "both compilations add the same number of constraints")
+	if len(r1) != len(r2) || len(cs1.added) != len(cs2.added) {
+		return
+	}
+	for i := range cs1.added {
+		verifAssert(cs1.added[i] == cs2.added[i], "both compilations append the same constraints in the same order")
+	}
+	for i := range r1 {
+		verifAssert(r1[i] == r2[i], "both compilations return the same positions")
+	}
+	verifReach("getWireConstraintsTwice")
 }
